@@ -58,6 +58,13 @@ func (s *ModelServer) PullFanSpeed(request *traits.PullFanSpeedRequest, server t
 }
 
 func (s *ModelServer) ReverseFanSpeedDirection(ctx context.Context, request *traits.ReverseFanSpeedDirectionRequest) (*traits.FanSpeed, error) {
-	// TODO implement me
-	panic("implement me")
+	// only the direction is written; the interceptor sees the stored fan speed and turns its direction around
+	return s.model.UpdateFanSpeed(&traits.FanSpeed{}, resource.WithUpdatePaths("direction"),
+		resource.InterceptBefore(func(old, new proto.Message) {
+			direction := traits.FanSpeed_BACKWARD
+			if old.(*traits.FanSpeed).GetDirection() == traits.FanSpeed_BACKWARD {
+				direction = traits.FanSpeed_FORWARD
+			}
+			new.(*traits.FanSpeed).Direction = direction
+		}))
 }
